@@ -10,22 +10,47 @@ type c14Err struct{}
 
 func (c14Err) Error() string { return "seal invalid" }
 
-// VerifC14EthashEnvironment (2-safety): the proof-of-work check builds its cache in a fresh temporary directory; its
-// verdict for a given header must not depend on what the local file system answers.
+// VerifC14EthashEnvironment (2-safety): the proof-of-work check builds its cache in a directory of the node's local file
+// system. The ethash engine (vendored) is a deterministic function of the header when it is given a FRESH PRIVATE
+// directory (ioutil.TempDir / os.MkdirTemp: nothing in it); in any other directory it may find cache dumps left by
+// earlier runs or other processes and use them as they are, so there its verdict is a function of the header AND of
+// whatever that directory holds on this node. Every environment answer (directory names, failures, directory content)
+// is arbitrary and independent in the two runs; the verdict must be the same.
 func VerifC14EthashEnvironment() {
-	rt.Override("github.com/teleport-network/teleport/x/xibc/clients/light-clients/eth/types.New", func(config Config, notify []string, noverify bool) *Ethash { return &Ethash{} })
+	fresh := map[string]bool{}
+	tempDirFailed := []bool{}
+	rt.Override("io/ioutil.TempDir", func(dir, pattern string) (string, error) {
+		if rt.Bool("env: creating the temporary directory fails") {
+			tempDirFailed = append(tempDirFailed, true)
+			return "", c14Err{}
+		}
+		tempDirFailed = append(tempDirFailed, false)
+		name := rt.Str("env: name of the new private directory")
+		fresh[name] = true
+		return name, nil
+	})
+	cacheDir := ""
+	rt.Override("github.com/teleport-network/teleport/x/xibc/clients/light-clients/eth/types.New", func(config Config, notify []string, noverify bool) *Ethash {
+		cacheDir = config.CacheDir
+		return &Ethash{}
+	})
 	rt.Override("(*github.com/teleport-network/teleport/x/xibc/clients/light-clients/eth/types.Ethash).Close", func(e *Ethash) error { return nil })
 	rt.Override("(*github.com/teleport-network/teleport/x/xibc/clients/light-clients/eth/types.Ethash).VerifySeal", func(e *Ethash, h *ethtypes.Header, fulldag bool) error {
-		// a deterministic function of the header (the ethash algorithm itself is the vendored dependency)
-		if rt.UFBool("ethashValid", h.ParentHash, h.Coinbase, h.Root, h.Number, h.Difficulty, h.Time, h.Extra, h.MixDigest, h.Nonce) {
+		content := "" // a fresh private directory is empty
+		if !fresh[cacheDir] {
+			content = rt.Str("env: what the cache directory already holds on this node")
+		}
+		if rt.UFBool("ethashValid", h.ParentHash, h.Coinbase, h.Root, h.Number, h.Difficulty, h.Time, h.Extra, h.MixDigest, h.Nonce, content) {
 			return nil
 		}
 		return c14Err{}
 	})
 	hdr := freshEthHeader("hdr")
-	r1 := VerifyCascadingFields(hdr) // every environment answer is arbitrary, independently in the two runs
+	r1 := VerifyCascadingFields(hdr)
 	r2 := VerifyCascadingFields(hdr)
 	rt.Reach("ran-twice")
-	rt.Known("H10-ethash-verdict-depends-on-tempdir", true)
+	// the recorded finding: creating the private directory fails on one node and not on the other
+	failed := func(i int) bool { return i < len(tempDirFailed) && tempDirFailed[i] }
+	rt.Known("H10-ethash-verdict-depends-on-tempdir", failed(0) != failed(1))
 	rt.Assert("N2-verdict-independent-of-the-local-filesystem", (r1 == nil) == (r2 == nil))
 }
